@@ -110,6 +110,9 @@ def expand(combo, count_obs):
     for k in range(n):
         for e in ('ENOSPC', 'EIO'):
             out.append(_base(combo, {'diskerr': {'k': k, 'errno': e}}))
+        if muts[k][0] == 'wopen':
+            for lim in (0, 1, 9, 60, 400):
+                out.append(_base(combo, {'diskerr': {'k': k, 'errno': 'ENOSPC', 'wlimit': lim}}))
     slugs = ['grp:target'] + (['upper'] if combo['shape'] == 'chain' else [])
     for slug in slugs:
         for kind in RUN_FAULTS:
